@@ -137,6 +137,18 @@ CHECKS = [
      "interpolated thresholds and of the quotients is outside the proof; scalar (0-d) fnr/fpr/thresholds arguments and negative "
      "nb_points are outside the property.",
      "Lean 4 proof about a hand-written model + differential correspondence check", "DESIGN.md §5 C15"),
+ chk("C06",
+     "Lean theorems about a line-by-line model of eer()/_find_root: C06_paths (the five ways eer() can return), C06_range "
+     "(0 <= e <= min(hard_pos_ratio, hard_neg_ratio) <= 1 on every path: the min/max mutant), C06_zero (for ALL inputs incl. "
+     "ties a reported EER of exactly 0 comes only from the strict-separation shortcut and its threshold has FP = FN = 0; the "
+     "bisection never returns 0), C06_fpr_side / C06_fpr_side_of_eer (tie-free negatives: |FPR(t) - e| <= 1/N_neg wherever the "
+     "threshold is set at FPR = e, i.e. the bisection path and the hard_pos_ratio cap; via C02_within), C06_fnr_side_at_fnr "
+     "(FNR cap path). Tied to /repo by comparing (t, e) with the model on tie-free data and evaluating the Lean predicates "
+     "rangeOK / crossingOK / zeroOK on the implementation's own matrix at its returned threshold on every case.",
+     BASE_NOTE + "PARTIAL: the FNR side of the crossing on the bisection path is stated (C06_fnr_side_statement), not proved; "
+     "it and the equivariance clauses are evaluated on every sampled case. With ties the EER value is not compared with the "
+     "exact model (float noise on flat stretches decides the branch). np.isclose by its formula; bisection with fuel 64.",
+     "Lean 4 proof (partial) about a hand-written model + differential correspondence check", "DESIGN.md §5 C06"),
 ]
 
 ALL = [f"C{i:02d}" for i in range(1, 21)]
